@@ -27,7 +27,7 @@ reg(
     "repetition), counted. B: filter/merge partition on generated nested choice-map shapes (scalar, vector, "
     "Vmap- and Cond-produced leaves); C: agreement of filter with what seed(regenerate) resamples and what "
     "mala/hmc move, on generated programs; B/C cases are distinct by hash of (shape, expression).",
-    quick={"shards": 16, "timeout_s": 1200, "depth2": "mixed", "n_filter": 60, "n_agree": 5, "exhaustive": True,
+    quick={"shards": 16, "timeout_s": 3000, "depth2": "mixed", "n_filter": 60, "n_agree": 5, "exhaustive": True,
            "required_classes": ["A.pairs", "B.filter_cases", "C.regenerate_cases", "C.mala_cases", "C.hmc_cases",
                                 "B.shape_with_vector_leaf", "B.shape_with_cond_leaf"]},
     thorough={"shards": 16, "timeout_s": 3 * 3600, "depth2": "full", "n_filter": 600, "n_agree": 40, "exhaustive": True,
@@ -47,7 +47,7 @@ reg(
     "vmapped distributions / repeat, Scan, Cond with shared addresses; nesting depth <= 3) together with arguments; a case "
     "is one program x argument tuple, run in the modes seed / jit(seed) / vmap-over-keys / unseeded eager. Non-trivial: "
     ">= 2 sites with a data dependency between them, or >= 1 combinator. Distinct = distinct hash of (program, args).",
-    quick={"shards": 16, "timeout_s": 1500, "n_programs": 6, "n1": 400,
+    quick={"shards": 16, "timeout_s": 3000, "n_programs": 6, "n1": 400,
            "required_classes": ["C01.prog_with_scan", "C01.prog_with_vmap", "C01.prog_with_cond", "C01.prog_with_call",
                                 "C01.prog_with_kwargs", "C01.prog_with_event", "C01.law_exact-pmf", "C01.law_pit"]},
     thorough={"shards": 16, "timeout_s": 4 * 3600, "n_programs": 120, "n1": 2500,
@@ -60,7 +60,7 @@ reg(
     "values from the independent reference sampler). Subset classes: none (None and {}), all, partial at top level, "
     "partial inside a Vmap/Scan/Cond/@gen sub-call, a whole sub-call missing. Non-trivial: S is a proper non-empty subset "
     "and the program has a combinator or a data dependency. Distinct = hash of (program, args, S).",
-    quick={"shards": 16, "timeout_s": 1500, "n_cases": 7, "n1": 400,
+    quick={"shards": 16, "timeout_s": 3000, "n_cases": 7, "n1": 400,
            "required_classes": ["C02.subset_none", "C02.subset_all", "C02.subset_partial_inside_subcall",
                                 "C02.subset_whole_subcall_missing", "C02.prog_with_scan", "C02.prog_with_vmap", "C02.prog_with_cond"]},
     thorough={"shards": 16, "timeout_s": 4 * 3600, "n_cases": 100, "n1": 2500,
@@ -73,7 +73,7 @@ reg(
     "generated perturbation, update-constraint subset with new values drawn from the reference conditional priors). The "
     "classifier detects whether the change flips a Cond predicate (class counter 'flip'). Non-trivial: constraints non-empty "
     "or args changed, and the program has a combinator or a data dependency. Distinct = hash of the whole case.",
-    quick={"shards": 16, "timeout_s": 1500, "n_cases": 12, "n_top": 3,
+    quick={"shards": 16, "timeout_s": 3000, "n_cases": 12, "n_top": 3,
            "required_classes": ["C03.top_level_scan", "C03.top_level_vmap", "C03.flip", "C03.noflip", "C03.args_changed", "C03.args_same", "C03.constraints_some",
                                 "C03.constraints_none", "C03.prog_with_scan", "C03.prog_with_vmap", "C03.prog_with_cond"]},
     thorough={"shards": 16, "timeout_s": 4 * 3600, "n_cases": 250, "n_top": 40,
@@ -87,7 +87,7 @@ reg(
     "Moves that flip a Cond are detected by the reference and only the clauses that the statement keeps for them are "
     "asserted. Non-trivial: the selection selects a proper non-empty subset of the leaves, or the program has a Scan/Vmap "
     "sub-call. Distinct = hash of the whole case.",
-    quick={"shards": 16, "timeout_s": 1500, "n_cases": 8, "n1": 400,
+    quick={"shards": 16, "timeout_s": 3000, "n_cases": 8, "n1": 400,
            "required_classes": ["C04.sel_none", "C04.sel_all", "C04.sel_proper", "C04.prog_with_scan", "C04.prog_with_vmap",
                                 "C04.prog_with_cond", "C04.selection_reaches_into_subcall", "C04.sel_with_connective", "C04.args_changed"]},
     thorough={"shards": 16, "timeout_s": 4 * 3600, "n_cases": 120, "n1": 2500,
@@ -102,7 +102,7 @@ reg(
     "lane}; the invariant (reference-model coherence, observed values, telescoping of consecutive updates) is checked after "
     "every step. Non-trivial: >= 3 executed steps of >= 2 different kinds including a kernel or regenerate. Distinct = hash "
     "of the whole history.",
-    quick={"shards": 16, "timeout_s": 1500, "n_histories": 3, "max_ops": 6,
+    quick={"shards": 16, "timeout_s": 3000, "n_histories": 3, "max_ops": 6,
            "required_classes": ["C05.step_update", "C05.step_regenerate", "C05.step_mh", "C05.step_mala", "C05.step_hmc",
                                 "C05.step_jit", "C05.step_vector", "C05.pair_update>update"]},
     thorough={"shards": 16, "timeout_s": 4 * 3600, "n_histories": 30, "max_ops": 14,
@@ -116,7 +116,7 @@ reg(
     "vectorized trace whose every leaf encodes its lane. For systematic resampling the random offset is scripted and "
     "EVERY cell of the partition of (0,1) induced by the breakpoints {N*C_j - i} is probed (midpoint and both edges). "
     "Non-trivial: N >= 2 and weights not all equal. Distinct = (N, method, weights rounded to 1e-3).",
-    quick={"shards": 16, "timeout_s": 1200, "n_cases": 40, "n_runs": 1500, "stat_every": 8,
+    quick={"shards": 16, "timeout_s": 3000, "n_cases": 40, "n_runs": 1500, "stat_every": 8,
            "required_classes": ["C12.systematic", "C12.categorical", "C12.w_degenerate", "C12.w_partly_neg_inf", "C12.w_near_uniform",
                                 "C12.w_wide_range", "C12.w_generic", "C12.N_1", "C12.N_large", "C12.offset_cells_probed"]},
     thorough={"shards": 16, "timeout_s": 3 * 3600, "n_cases": 500, "n_runs": 6000, "stat_every": 4,
@@ -130,7 +130,7 @@ reg(
     "d_obs in 1..3 (independently, so d_obs != d_state in most), T in 1..6, A and C generated, SPD covariances B B^T + lambda I. "
     "Oracles: brute force over all K^T state sequences; dense joint Gaussian conditioning in float64. Non-trivial: T >= 2 and "
     "(sparse or K != M) for HMMs, T >= 2 and d_obs != d_state for LG. Distinct = hash of the case.",
-    quick={"shards": 16, "timeout_s": 1200, "n_cases": 24, "n1": 4000, "stat_every": 3,
+    quick={"shards": 16, "timeout_s": 3000, "n_cases": 24, "n1": 4000, "stat_every": 3,
            "required_classes": ["C20.hmm", "C20.lg", "C20.hmm_sparse", "C20.hmm_T1", "C20.lg_nonsquare", "C20.lg_T1", "C20.lg_square"]},
     thorough={"shards": 16, "timeout_s": 3 * 3600, "n_cases": 300, "n1": 20000, "stat_every": 2,
               "required_classes": ["C20.hmm", "C20.lg", "C20.hmm_sparse", "C20.hmm_T1", "C20.lg_nonsquare", "C20.lg_T1"]},
@@ -143,7 +143,7 @@ reg(
     "Every run visits every distribution at least once (fixed-parameter sweep) in addition to the generated cases. Each case "
     "evaluates logpdf on 2001 grid points (continuous) or the whole (truncated) support (discrete). Non-trivial: every case "
     "(parameters are never the defaults). Distinct = (distribution, mode, parameters).",
-    quick={"shards": 16, "timeout_s": 1200, "n_cases": 12, "n1": 4000,
+    quick={"shards": 16, "timeout_s": 3000, "n_cases": 12, "n1": 4000,
            "required_classes": ["C13.dist_" + d for d in ["normal", "flip", "categorical", "exponential", "geometric", "multivariate_normal",
                                                           "bernoulli", "binomial", "negative_binomial", "gamma", "dirichlet", "multinomial", "zipf",
                                                           "tfp:Logistic", "custom:shifted_exponential"]] + ["C13.mode_" + m for m in ["sample_shape", "vmap_keys", "modular_vmap", "gen_site", "kwargs"]]},
@@ -157,7 +157,7 @@ reg(
     "modular_vmap around saving code, repeated names, sampling sites - in one of the configurations state(f), jit(state(f)), "
     "seed(state(f)). Every saved value is a known affine function of (argument, scan index, lane, carry). Non-trivial: a save "
     "under >= 2 enclosing constructs of different kinds. Distinct = hash of the case.",
-    quick={"shards": 16, "timeout_s": 1200, "n_cases": 40,
+    quick={"shards": 16, "timeout_s": 3000, "n_cases": 40,
            "required_classes": ["C19.cfg_eager", "C19.cfg_jit", "C19.cfg_seed", "C19.save_under_ns+scan", "C19.save_under_scan+ns",
                                 "C19.save_under_scan+scan", "C19.save_under_vmap", "C19.save_under_scan"]},
     thorough={"shards": 16, "timeout_s": 3 * 3600, "n_cases": 600, "required_classes": ["C19.cfg_eager", "C19.cfg_jit", "C19.cfg_seed", "C19.save_under_ns+scan"]},
@@ -170,7 +170,7 @@ reg(
     "several diagnostics under namespaces). Each cell compares chain(...) with the un-thinned run under the same key; each "
     "un-thinned run is checked to be a kernel iteration from the initial trace. Non-trivial: burn_in > 0 or thinning > 1. "
     "Cells are distinct by construction (hash of target, n, b, t, chains).",
-    quick={"shards": 16, "timeout_s": 1200, "max_n": 6, "max_thin": 3, "chains": [1, 2], "exhaustive": True,
+    quick={"shards": 16, "timeout_s": 3000, "max_n": 6, "max_thin": 3, "chains": [1, 2], "exhaustive": True,
            "targets": ["cont_mh", "cont_composite", "vec_hmc", "disc_mh"],
            "required_classes": ["C18.target_cont_mh", "C18.target_cont_composite", "C18.target_vec_hmc", "C18.target_disc_mh", "C18.chains_1", "C18.chains_2", "C18.full_runs_checked"]},
     thorough={"shards": 16, "timeout_s": 3 * 3600, "max_n": 12, "max_thin": 4, "chains": [1, 2, 3], "exhaustive": True,
@@ -185,7 +185,7 @@ reg(
     "@gen-simulate, nested to depth 3, whose sites all share parameters (normal(0,1) / uniform(0,1), some with a sample_shape), "
     "and a key. Every scalar draw is a 'position'. Non-trivial: a site under >= 2 different enclosing constructs. "
     "Distinct = hash of the shape.",
-    quick={"shards": 16, "timeout_s": 1200, "n_cases": 12, "n1": 4000,
+    quick={"shards": 16, "timeout_s": 3000, "n_cases": 12, "n1": 4000,
            "required_classes": ["C07.site_under_scan", "C07.site_under_vmap", "C07.site_under_cond", "C07.site_under_gen",
                                 "C07.nest_scan>scan", "C07.nest_scan>vmap", "C07.nest_vmap>scan", "C07.nest_scan>cond", "C07.nest_vmap>site_ss"]},
     thorough={"shards": 16, "timeout_s": 3 * 3600, "n_cases": 150, "n1": 20000,
@@ -200,7 +200,7 @@ reg(
     "counter, unseeded program runs, jax.clear_caches(), seeded runs with another argument shape that perturb the staging "
     "cache). Non-trivial: the history contains a repeat separated from its first occurrence by >= 1 interference op and a "
     "program with a scan, cond or vectorized site. Distinct = hash of the history.",
-    quick={"shards": 16, "timeout_s": 1200, "n_histories": 8,
+    quick={"shards": 16, "timeout_s": 3000, "n_histories": 8,
            "required_classes": ["C06.mode_eager", "C06.mode_jit", "C06.mode_vmap_keys", "C06.mode_jit_vmap_keys", "C06.repeat_after_interference",
                                 "C06.prog_with_scan", "C06.prog_with_cond", "C06.prog_with_vmap", "C06.prog_with_gen"]},
     thorough={"shards": 16, "timeout_s": 3 * 3600, "n_histories": 100,
@@ -215,7 +215,7 @@ reg(
     "data-dependent or constant predicate) and an argument pytree spec (scalars, vectors, matrices, dicts, nested tuples) with "
     "random primals and tangents. Oracle: jax.jvp / jax.grad / f. Non-trivial: >= 3 ops incl. a shape-changing one, or a "
     "non-differentiable intermediate, or a pytree argument. Distinct = hash of the case.",
-    quick={"shards": 16, "timeout_s": 1200, "n_cases": 30,
+    quick={"shards": 16, "timeout_s": 3000, "n_cases": 30,
            "required_classes": ["C15.args_scalar", "C15.args_vector", "C15.args_matrix", "C15.args_dict", "C15.args_tuple_nested", "C15.op_cond",
                                 "C15.op_linalg", "C15.op_index", "C15.nondifferentiable_intermediate", "C15.cond_data", "C15.cond_const"]},
     thorough={"shards": 16, "timeout_s": 3 * 3600, "n_cases": 600, "required_classes": ["C15.args_dict", "C15.op_cond", "C15.op_linalg"]},
@@ -228,7 +228,7 @@ reg(
     "value_and_grad, vmap, nested jit, checkpoint, custom_jvp, lax.map, modular_vmap}, with seed applied nowhere / outermost / "
     "directly around the core. Each placement is built and called repeatedly (3 calls unseeded; 4 keys + a repeat seeded). "
     "Non-trivial: depth >= 2 or a construct the Seed interpreter does not special-case. Distinct by construction.",
-    quick={"shards": 16, "timeout_s": 1200, "depths": [1, 2], "cores_deep": ["dist_sample", "gf_simulate"], "exhaustive": True,
+    quick={"shards": 16, "timeout_s": 3000, "depths": [1, 2], "cores_deep": ["dist_sample", "gf_simulate"], "exhaustive": True,
            "required_classes": ["C14.seed_none", "C14.seed_outer", "C14.seed_inner", "C14.depth_1", "C14.depth_2", "C14.outcome_lowering_error", "C14.outcome_value", "C14.outcome_vmap_error"]},
     thorough={"shards": 16, "timeout_s": 3 * 3600, "depths": [1, 2], "cores_deep": ["dist_sample", "gf_simulate", "gf_call", "sample_shape", "adev_site"], "sample_depth3": 1500, "exhaustive": True,
               "required_classes": ["C14.seed_none", "C14.seed_outer", "C14.depth_2", "C14.outcome_lowering_error"]},
@@ -244,7 +244,7 @@ reg(
     "stack, jax.vmap differential, per-lane PIT. Part 3: a generated model-IR program vectorized with Vmap/repeat at top "
     "level - lane i of the trace is scored by the reference on lane i's arguments. Non-trivial: in_axes not all 0, or nested "
     "modular_vmap, or rank-mismatched parameters, or a sample_shape site (all Part-3 cases). Distinct = hash of the case.",
-    quick={"shards": 16, "timeout_s": 1500, "n_cases": 14, "n_vmapgf": 3, "n1": 1500,
+    quick={"shards": 16, "timeout_s": 3000, "n_cases": 14, "n_vmapgf": 3, "n1": 1500,
            "required_classes": ["C08.axis_other", "C08.axis_none", "C08.axis_0", "C08.feat_sample", "C08.feat_sample_shape", "C08.feat_logpdf",
                                 "C08.feat_inner_vmap", "C08.feat_scan", "C08.feat_cond", "C08.rank_mismatched_params", "C08.packing_dict_last",
                                 "C08.axis_size_inferred", "C08.B_equals_a_lane_dim", "C08.vmap_combinator", "C08.vmap_combinator_axis_none"]},
@@ -261,7 +261,7 @@ reg(
     "scripted threshold + full transition matrix. (stationary) conjugate normal targets in 1-3 dimensions: one seeded step "
     "from exact posterior samples, KS + a detailed-balance statistic. Non-trivial: every case with a non-empty selection. "
     "Distinct = hash of the case.",
-    quick={"shards": 16, "timeout_s": 1500, "n_ir": 7, "n_fam": 3, "n1": 4000,
+    quick={"shards": 16, "timeout_s": 3000, "n_ir": 6, "n_fam": 3, "n1": 3000,
            "required_classes": ["C09.ir_mh", "C09.ir_mala", "C09.ir_hmc", "C09.selected_array_valued", "C09.selection_inside_subcall",
                                 "C09.threshold_checked", "C09.mixture_indicator", "C09.stationary_mh", "C09.stationary_mala", "C09.stationary_hmc", "C09.stationary_d2"]},
     thorough={"shards": 16, "timeout_s": 4 * 3600, "n_ir": 90, "n_fam": 40, "n1": 20000,
@@ -278,7 +278,7 @@ reg(
     "E[exp(log_marginal_likelihood())] = exact marginal likelihood (brute force / Kalman), estimate-weighted indicator "
     "averages = unnormalised posterior. Non-trivial: >= 1 extend or resample after init, or a custom proposal. "
     "Distinct = hash of the case.",
-    quick={"shards": 16, "timeout_s": 1500, "n_cases": 6, "n1": 3000,
+    quick={"shards": 16, "timeout_s": 3000, "n_cases": 6, "n1": 3000,
            "required_classes": ["C10.pipeline", "C10.rejuvenation_smc", "C10.family_D", "C10.family_G", "C10.proposal_custom", "C10.proposal_default",
                                 "C10.move_extend", "C10.move_resample_sys", "C10.move_resample_cat", "C10.move_rejuvenate", "C10.N_1", "C10.N_many", "C10.rsmc_with_kernel"]},
     thorough={"shards": 16, "timeout_s": 4 * 3600, "n_cases": 80, "n1": 20000,
@@ -295,7 +295,7 @@ reg(
     "Richardson finite differences. Enumeration-only programs must be exact for every key; others are tested by calibrated "
     "block-mean t-tests over thousands of keys, reparameterised-only programs additionally by the per-draw pathwise identity. "
     "Non-trivial: >= 2 estimator kinds, or a parameter depending on an earlier draw, or a cond/where. Distinct = hash of the case.",
-    quick={"shards": 16, "timeout_s": 1500, "n_cases": 8, "n1": 6000,
+    quick={"shards": 16, "timeout_s": 3000, "n_cases": 8, "n1": 6000,
            "required_classes": ["C11.all_enum_exact", "C11.stochastic_calibrated", "C11.composition_of_different_estimator_kinds", "C11.param_depends_on_earlier_draw",
                                 "C11.site_flip_enum", "C11.site_flip_enum_parallel", "C11.site_categorical_enum_parallel", "C11.site_flip_mvd", "C11.site_flip_reinforce",
                                 "C11.site_normal_reparam", "C11.site_normal_reinforce", "C11.mode_jit", "C11.mode_vmap_thetas", "C11.ret_cond"]},
@@ -311,7 +311,7 @@ reg(
     "gradient. Recursion cases: optimize_vi on zero-variance objectives (sampling-free and enumeration-only) against the numpy "
     "recursion params + lr * grad for every iterate. Non-trivial: all conjugate cases (q is neither prior nor posterior for the "
     "statistical part); recursion cases with n_iterations >= 2. Distinct = hash of the case.",
-    quick={"shards": 16, "timeout_s": 1500, "n_cases": 5, "n1": 4000,
+    quick={"shards": 16, "timeout_s": 3000, "n_cases": 5, "n1": 4000,
            "required_classes": ["C17.family_mean_field", "C17.family_full_cov", "C17.estimator_reparam", "C17.estimator_reinforce",
                                 "C17.posterior_tightness_checked", "C17.recursion_quadratic", "C17.recursion_enum"]},
     thorough={"shards": 16, "timeout_s": 4 * 3600, "n_cases": 60, "n1": 30000,
